@@ -5,6 +5,7 @@
 -/
 import ParsleyVerif.Model.Run
 import ParsleyVerif.Generated.FactsFn
+import ParsleyVerif.Proofs.FactsTieText
 namespace PV
 open PV.Text
 
@@ -85,19 +86,5 @@ theorem tie_setError (st : St) (e : Err) :
   | some c =>
     simp only [ht, Option.isNone_some, Bool.false_or, Option.map_some, Option.getD_some]
     by_cases hp : e.pos ≥ c.pos <;> simp [hp]
-
-theorem tie_isWordByte (b : Nat) : isWordByte b = FactsFn.isWordCharacter b := by
-  rw [Bool.eq_iff_iff]
-  simp [isWordByte, FactsFn.isWordCharacter] <;> omega
-
-theorem tie_remaining (f : File) (pos : Nat) : remaining f pos = FactsFn.remaining f.len pos f.offset := by
-  simp only [remaining, FactsFn.remaining] <;> omega
-
-theorem tie_isEOF (f : File) (pos : Nat) : isEOF f pos = FactsFn.isEOF f.len pos f.offset := by
-  rw [Bool.eq_iff_iff]
-  simp [isEOF, FactsFn.isEOF] <;> omega
-
-theorem tie_addFile (fs : FileSet) (f : File) : (fs.addFile f).1.pos = FactsFn.fileSetNext fs.pos f.len := by
-  simp only [FileSet.addFile, FactsFn.fileSetNext, Facts.fileSetGap] <;> omega
 
 end PV
